@@ -10,7 +10,7 @@ ENGINE = {
     "C01": "ipamsim", "C02": "ipamsim", "C03": "ipamsim", "C04": "ipamsim", "C05": "ipamsim", "C06": "ipamsim",
     "C08": "ipamsim", "C10": "ipamsim", "C07": "ipamconc", "C09": "ipamconc", "C11": "keysapi", "C12": "cnisim",
     "C13": "cnisim", "C14": "pmsim", "C15": "polsim", "C16": "polsim", "C17": "gcsim", "C18": "fuzzmon",
-    "C19": "racemon", "C20": "confmodel",
+    "C19": "ipamconc", "C20": "confmodel",
 }
 
 SIM_NOTE = ("Trusted: the fake API server (client-go object trackers plus a pods/binding reactor emulating NotFound/"
@@ -25,8 +25,12 @@ CHECKS = {
             "workloads; after every step a monitor checks single ownership in the IPAM dump and that no two live pods were "
             "told the same IP in their binding annotation (binding log of the fake API server) and that a live pod's told IP "
             "is keyed to it. Includes delayed/lost events, same-name re-incarnations, resync, API release, reload, restart, "
-            "and single API-call failures / crashes at sampled call indices.",
-            "runtime monitoring: invariant monitor over binding log + IPAM dump after every step of simulated histories with injected faults",
+            "and single API-call failures / crashes at sampled call indices, and interleaved executions in which one entry "
+            "point is paused at its k-th API call while other entry points run to completion (resync vs re-creation, API "
+            "release vs rebind). Second engine (race build): concurrent mixed rounds on one plugin instance with the same "
+            "ownership monitors at barriers, and short concurrent histories of the bare IPAM interface (<= 8 addresses, <= 40 "
+            "operations, 3-6 clients) checked for linearizability with porcupine against an ip->key map model.",
+            "runtime monitoring: invariant monitor over binding log + IPAM dump after every step of simulated and interleaved histories with injected faults; porcupine linearizability check of recorded concurrent IPAM histories",
             "3 (C01)", SIM_NOTE),
     "C02": ("exploration",
             "Same histories, skewed to immutable/never (70%); at every Filter the harness snapshots what the pod's key and "
@@ -44,8 +48,11 @@ CHECKS = {
             "After every step each live bound pod must still own the IPs of its binding annotation; seeded scenario templates "
             "produce the orderings the property names (late delete event of an older incarnation after the replacement is "
             "bound; bind while the old delete is unhandled; lister still holding the old incarnation during Bind) on top of "
-            "random histories; API release over real HTTP; provider unassign of a live pod's IP is caught by the provider FSM.",
-            "runtime monitoring: ownership invariant after every step + seeded event-order templates",
+            "random histories; API release over real HTTP; provider unassign of a live pod's IP is caught by the provider FSM. "
+            "Interleaved executions pause resync / unbind / the release API at each of their API calls while the pod is deleted, "
+            "re-created and re-bound in between. Second engine (race build): concurrent mixed rounds (schedule, delete, "
+            "re-create, resync, API release, loop workers) with the live-pod-keeps-its-IP monitor at barriers.",
+            "runtime monitoring: ownership invariant after every step + seeded event-order templates + paused-call interleavings + concurrent stress rounds under the race detector",
             "3 (C04)", SIM_NOTE),
     "C05": ("fault_enumeration",
             "For sampled steps of every history the operation is re-executed from a deep copy of the world once per API-call "
@@ -63,7 +70,8 @@ CHECKS = {
             "runtime monitoring: differential check of filter/bind results against an independent topology model",
             "3 (C06)", SIM_NOTE),
     "C07": ("exploration",
-            "Race-built real plugin with its Run() loop workers: one goroutine per pod runs filter->bind for deployments sharing "
+            "Sequential engine: the pool-size monitor runs after every step of simulated histories (pool creation, "
+            "pre-allocation, size changes, deployments sharing a pool, faults). Concurrent engine: race-built real plugin with its Run() loop workers: one goroutine per pod runs filter->bind for deployments sharing "
             "a sized pool while an administrator goroutine changes the size / pre-allocates through the real HTTP API and a churn "
             "goroutine deletes bound pods; yields are injected at every API call of galaxy. An observer counts the IPs held under "
             "the pool after every operation and continuously; growth beyond the largest size any in-flight or just-returned "
@@ -79,19 +87,20 @@ CHECKS = {
             "runtime monitoring with per-call fault injection on multi-IP binds",
             "3 (C08)", SIM_NOTE),
     "C09": ("exploration",
-            "Concurrent rounds: 4-7 workers create/schedule/delete pods while a reloader applies 3-5 mutated configurations "
+            "Sequential engine: reload / reservation clauses after every step of simulated histories incl. faults and crashes "
+            "inside a reload. Concurrent rounds: 4-7 workers create/schedule/delete pods while a reloader applies 3-5 mutated configurations "
             "through the real updateConfigMap (a delay is injected right after the reload's store list) and an administrator "
             "reserves/unreserves addresses with labelled FloatingIP objects whose watch events are pumped with lag. At a barrier "
             "(workers joined, pump drained, loop workers quiescent, two identical observations with no API call in between): memory "
             "and store agree on every configured IP, no allocation made during a reload is lost, no admin-reserved or de-configured "
-            "IP is allocated, de-configured objects are gone. The sequential reload/reservation clauses are also checked by ipamsim "
-            "histories (alarms counted there).",
+            "IP is allocated, de-configured objects are gone.",
             "runtime monitoring: barrier-time state comparison after concurrent reload/reserve/allocate rounds with widened windows",
             "3 (C09)", "Trusted: fake API server, event pump, barrier detection (API-call counter stable)."),
     "C10": ("exploration",
             "A recording cloud provider's call log is replayed through a per-IP state machine after every step: no assign to a "
             "second node while assigned, every live bound pod's IPs assigned to its node, no owner change while assigned; "
-            "provider calls are failed cleanly and the real retry paths (release queue, resync) are run.",
+            "provider calls are failed cleanly (every provider call index of sampled steps) and the real retry paths (release "
+            "queue, resync) are run; keys holding several IPs, API release and resync release are included.",
             "runtime monitoring: per-IP state machine over the recorded provider call log",
             "3 (C10)", SIM_NOTE),
     "C11": ("exploration",
@@ -211,7 +220,7 @@ m = {
     "hooks": {
         "guard": "verif",
         "enable": "go build -tags verif: ./check builds every engine from /verif/harness (module verif/harness, "
-                  "replace tkestack.io/galaxy => /repo) with -tags verif, -race for ipamconc/racemon",
+                  "replace tkestack.io/galaxy => /repo) with -tags verif, -race for ipamconc (and for cnisim/polsim when run as C19 workloads)",
         "baseline_off_cmd": "cd /repo && GOFLAGS=-mod=mod GOPROXY=off GOSUMDB=off GOTOOLCHAIN=local go test -json -vet=off -count=1 -timeout 25m ./...",
         "source_commits": hooks,
         "add_only": True,
